@@ -221,6 +221,11 @@ def run_shared(ctx):
                             if isinstance(x, ast.Call) and isinstance(x.func, ast.Attribute) and x.func.attr in INPLACE \
                                     and norm(x.func.value) == f'self.{name}':
                                 writes.append((meth, x, f'`{norm(x)[:40]}`'))
+                            # `self.name += [...]` on a list / set / dict changes the shared object in place (and then
+                            # binds the same object on the instance)
+                            if isinstance(x, ast.AugAssign) and isinstance(x.target, ast.Attribute) \
+                                    and norm(x.target) == f'self.{name}' and meth.name not in ('__init__', '__post_init__'):
+                                writes.append((meth, x, f'`{norm(x)[:40]}`'))
                 ok = inst or not writes
                 ctx.ob(rule, (c.file, c.name), f'class-level {c.name}.{name} = {norm(v)[:30]}', ok,
                        ('rebound per instance in __init__' if inst else 'never written through an instance') if ok else
